@@ -1,6 +1,7 @@
 package main
 
 import (
+	"os"
 	"fmt"
 	"sort"
 	"go/ast"
@@ -169,7 +170,7 @@ func (x *Exec) useContract(ctr *Contract, isGo bool) bool {
 	}
 	for _, c := range ctr.Clauses {
 		switch c.Kind {
-		case "requires", "ensures", "assigns", "noreturn", "pure", "ghostset":
+		case "requires", "ensures", "assigns", "noreturn", "pure", "ghostset", "maypanic":
 			return true
 		}
 	}
@@ -531,6 +532,14 @@ func (x *Exec) applyContract(fr *Frame, st *State, ctr *Contract, sig *types.Sig
 			}
 		case "noreturn":
 			noret = true
+		}
+	}
+	for _, c := range ctr.Clauses {
+		if c.Kind == "maypanic" && !isGo {
+			// the callee may panic instead of returning, possibly after some of its effects:
+			// the panic state is the state with the callee's frame havocked and no postcondition
+			x.panicEdge(fr, st, instr, shortKey(ctr.Key), c.Tags)
+			break
 		}
 	}
 	x.bumpAlloc(st)
@@ -979,4 +988,131 @@ func (fr *Frame) indexCandidates() []string {
 		out = out[:8]
 	}
 	return out
+}
+
+// ---------- panics of callees and recovery ----------
+
+// recovers reports whether the deferred call is a closure that calls recover().
+func deferRecovers(d deferred) bool {
+	fn := d.fnval.Fn
+	if fn == nil {
+		if f, ok := d.call.Value.(*ssa.Function); ok {
+			fn = f
+		} else if mc, ok := d.call.Value.(*ssa.MakeClosure); ok {
+			fn, _ = mc.Fn.(*ssa.Function)
+		}
+	}
+	if fn == nil {
+		return false
+	}
+	for _, b := range fn.Blocks {
+		for _, in := range b.Instrs {
+			if c, ok := in.(*ssa.Call); ok {
+				if bi, ok := c.Call.Value.(*ssa.Builtin); ok && bi.Name() == "recover" {
+					return true
+				}
+			}
+		}
+	}
+	return false
+}
+
+func (fr *Frame) hasRecoveringDefer() bool {
+	for _, d := range fr.defers {
+		if deferRecovers(d) {
+			return true
+		}
+	}
+	return false
+}
+
+// panicEdge models "this call may panic here". If no frame on the (inlined)
+// call stack has registered a deferred function that recovers, the panic takes
+// the process down: a panic-freedom obligation that cannot be discharged.
+// Otherwise the state at the call is recorded; when the body of the current
+// frame is finished the deferred calls are run on it in panicking mode and
+// execution resumes at the function's recover block (see finishPanics).
+func (x *Exec) panicEdge(fr *Frame, st *State, instr ssa.Instruction, what string, tags []string) {
+	recovering := false
+	for f := fr; f != nil; f = f.parent {
+		if f.hasRecoveringDefer() {
+			recovering = true
+			break
+		}
+	}
+	if !recovering {
+		if x.topCtr != nil && x.topCtr.has("maypanic") {
+			return // the function under verification declares that it lets panics escape: its callers answer for them
+		}
+		if x.safety {
+			name := x.siteName(fmt.Sprintf("%s/extpanic.%s@%s", x.prog.relName(x.topFn), what, x.srcText(instr)))
+			t := tags
+			if len(t) == 0 {
+				t = x.safetyTag
+			}
+			x.oblige(st, "panic", name, t, instr.Pos(), "false")
+		}
+		return
+	}
+	if os.Getenv("GOCV_DEBUG_PANIC") != "" {
+		fmt.Fprintf(os.Stderr, "panic edge at %s in %s (recovering frame found)\n", what, fr.fn.Name())
+	}
+	ps := st.clone()
+	x.smt.fresh++
+	b := x.smt.Fresh("panics", SBool)
+	ps.pc = x.smt.Name("pc", SBool, and(st.pc, b))
+	fr.panicStates = append(fr.panicStates, ps)
+	// the normal continuation is the other case: facts assumed about the callee's normal
+	// return (its postconditions) must not leak into the panic state, which shares its terms
+	st.pc = x.smt.Name("pc", SBool, and(st.pc, not(b)))
+}
+
+// finishPanics runs after the body of fr: the recorded panic states unwind through
+// the deferred calls of fr; if one of them recovers, the function returns
+// normally through its recover block, otherwise the panic reaches the caller.
+func (x *Exec) finishPanics(fr *Frame, in map[*ssa.BasicBlock][]edgeState, loops map[*ssa.BasicBlock]*loopInfo) {
+	if len(fr.panicStates) == 0 {
+		return
+	}
+	st := x.mergeStates(fr.panicStates)
+	fr.panicStates = nil
+	if st == nil || st.dead {
+		return
+	}
+	savedMode, savedRec := x.panicMode, x.didRecover
+	x.panicMode, x.didRecover = true, false
+	for i := len(fr.defers) - 1; i >= 0; i-- {
+		d := fr.defers[i]
+		run := st.clone()
+		run.pc = x.smt.Name("pc", SBool, and(st.pc, d.guard))
+		skip := st.clone()
+		skip.pc = x.smt.Name("pc", SBool, and(st.pc, not(d.guard)))
+		x.doCallVals(fr, run, d.call, d.instr, d.fnval, d.args, false)
+		m := x.mergeStates([]*State{run, skip})
+		*st = *m
+	}
+	recovered := x.didRecover
+	x.panicMode, x.didRecover = savedMode, savedRec
+	if os.Getenv("GOCV_DEBUG_PANIC") != "" {
+		fmt.Fprintf(os.Stderr, "finishPanics %s: defers=%d recovered=%v recoverBlock=%v dead=%v\n", fr.fn.Name(), len(fr.defers), recovered, fr.fn.Recover != nil, st.dead)
+	}
+	if !recovered {
+		if fr.parent != nil {
+			fr.parent.panicStates = append(fr.parent.panicStates, st)
+		} else if x.safety && !(x.topCtr != nil && x.topCtr.has("maypanic")) {
+			x.oblige(st, "panic", x.siteName(fmt.Sprintf("%s/extpanic.unrecovered", x.prog.relName(x.topFn))), x.safetyTag, fr.fn.Pos(), "false")
+		}
+		return
+	}
+	if rb := fr.fn.Recover; rb != nil {
+		fr.curBlock = rb
+		x.execBlock(fr, rb, st, in, loops)
+		return
+	}
+	// no named results: the function returns the zero values
+	var rs []Val
+	for _, t := range resultTypes(fr.fn.Signature) {
+		rs = append(rs, zeroVal(t))
+	}
+	x.doReturn(fr, st, rs, nil)
 }
